@@ -124,6 +124,15 @@ def gen_count(rng, uni: qgen.Universe, ev: str, uses: List[Tuple[str, str]], nva
         nvar[0] += 1
         v = f"y{nvar[0]}"
         b, sb = gen_body(rng, v, rng.choice([0, 1, 2]))   # no functions here: a Sum of uninterpreted values may reach a comparison
+        if rng.random() < 0.4:
+            # explicit Aggregate(seed, lambda a, v: a OP v): seed an int or floating literal, OP one of + - *
+            sd, ssd = rng.choice([("0", ["int", 0]), ("1", ["int", 1]), ("2", ["int", 2]), ("0.5", ["dbl", "0.5", 1, 2]),
+                                  ("1.5", ["dbl", "1.5", 3, 2]), ("2.0", ["dbl", "2.0", 2, 1])])
+            op = rng.choice(["+", "+", "-", "*"])
+            nvar[0] += 2
+            a, w = f"a{nvar[0]}", f"w{nvar[0]}"
+            return (src + f".Select(lambda {v}: {b}).Aggregate({sd}, lambda {a}, {w}: {a} {op} {w})",
+                    ["count", [name.lower(), ct, bank, arrow, preds, ["agg", ssd, op, sb]]])
         return src + f".Select(lambda {v}: {b}).Sum()", ["count", [name.lower(), ct, bank, arrow, preds, ["sum", sb]]]
     return src + ".Count()", ["count", [name.lower(), ct, bank, arrow, preds, ["count"]]]
 
